@@ -42,6 +42,17 @@ func (r *Run) initChild() {
 	}
 }
 
+// Progress records (in a child) what is about to be executed, so that the coordinator can attribute a crash.
+func (r *Run) Progress(v any) {
+	if !r.isChild {
+		return
+	}
+	b, err := json.Marshal(v)
+	if err == nil {
+		_ = os.WriteFile(r.partialPath+".progress", b, 0o644)
+	}
+}
+
 // Child reports whether this process is a child and which share (idx of n) it has.
 func (r *Run) Child() (idx, n int, ok bool) { return r.childIdx, r.childN, r.isChild }
 
@@ -131,6 +142,11 @@ func (r *Run) SpawnChildren(n, par int, extraEnv []string, timeout time.Duration
 				fmu.Lock()
 				failures = append(failures, fmt.Sprintf("child %d: %v: %s", i, werr, string(tail)))
 				fmu.Unlock()
+				progress, _ := os.ReadFile(pp + ".progress")
+				full, _ := os.ReadFile(errPath)
+				if r.OnChildFailure != nil && r.OnChildFailure(string(progress), string(full)) {
+					return // turned into a verdict by the check
+				}
 				r.Inconclusive("child process failed")
 			}
 		}(i)
